@@ -42,8 +42,8 @@ def attr_dict(draw):
 
 
 @st.composite
-def strategy(draw):
-    cls = draw(st.sampled_from(CLASSES))
+def strategy(draw, cls=None):
+    cls = cls or draw(st.sampled_from(CLASSES))  # (the runner stratifies: every shard runs its slice of CLASSES, one class at a time)
     if cls in ("ExtendedEOF", "OPA"):
         lay = draw(L.layout(max_sd=1, max_fd=2, min_samples=12, min_features=3, max_items=2, max_vars=2))
         d = {"cls": cls, "lays": [lay], "spec": {"cls": cls, "n_modes": 2, "solver": "full", "random_state": draw(st.sampled_from([None, 3])),
